@@ -42,7 +42,9 @@ RULE_ADDED = (
               'Round 10: one image in five has a hash beginning or ending with a zero byte. '
               ' '
               'Round 11: images addressed by bare relative names that read like data (64 hex di'
-              'gits, 0x..., numbers, true, None). ')
+              'gits, 0x..., numbers, true, None). '
+              ' '
+              "Round 12: images given through a symbolic-linked directory followed by '..'. ")
 RULE = RULE + " " + RULE_ADDED.strip()
 ASSUMPTIONS = [
     "own Intel-HEX writer (pv/gen/ihex.py); areas do not overlap",
@@ -193,7 +195,8 @@ def run_case_(acc, cseed, tmpdir, state):
     # file naming: distinct names in one directory, or the same name in a directory per
     # image (ui/app.hex, signer/app.hex ...), or names that are prefixes of each other
     naming = rng.choice(["distinct", "distinct", "same-name-other-dir", "prefix-names",
-                         "pattern-characters", "data-like-names"])
+                         "pattern-characters", "data-like-names",
+                         "through-a-symlinked-directory"])
     odd_names = []
     if naming == "pattern-characters":
         # names that mean something else to a shell, a glob, a format string or a path
@@ -219,6 +222,18 @@ def run_case_(acc, cseed, tmpdir, state):
             p = os.path.join(tmpdir, "app" + ".hex" * (i + 1))
         elif naming == "pattern-characters" and i > 0:
             p = os.path.join(tmpdir, odd_names[i - 1])
+        elif naming == "through-a-symlinked-directory":
+            # ui/bin is a link to ../build/out/bin; the image is given as ui/bin/../appN.hex,
+            # which is build/out/appN.hex for the system - whereas ui/appN.hex (what the
+            # text minus "bin/.." would name) is another file, with other contents
+            for d_ in ("build/out/bin", "ui"):
+                os.makedirs(os.path.join(tmpdir, d_), exist_ok=True)
+            if not os.path.lexists(os.path.join(tmpdir, "ui", "bin")):
+                os.symlink(os.path.join("..", "build", "out", "bin"),
+                           os.path.join(tmpdir, "ui", "bin"))
+            p = os.path.join(tmpdir, "ui", "bin", "..", "app%d.hex" % i)
+            ihex.write(rng, ihex.gen_areas(rng, max_areas=2),
+                       os.path.join(tmpdir, "ui", "app%d.hex" % i))
         elif naming == "data-like-names":
             # images addressed by a bare relative name (the tools run in their directory)
             # that reads like data: 64 hex digits (a hash), 0x + hex, a number, an option
@@ -314,8 +329,8 @@ def run_case_(acc, cseed, tmpdir, state):
     finally:
         ecdsa.SigningKey.generate = orig_generate
     # (the tools may have been given bare relative names: absolute for comparison)
-    written = sorted(set(os.path.abspath(p) for p in _opened
-                         if os.path.abspath(p).startswith(tmpdir)))
+    written = sorted(set(os.path.realpath(p) for p in _opened
+                         if os.path.realpath(p).startswith(os.path.realpath(tmpdir))))
     acc.count("signing_runs")
     if code != 0:
         acc.violation("signonetime-failed", {"code": code, "out": out[-300:]}, case)
@@ -324,8 +339,10 @@ def run_case_(acc, cseed, tmpdir, state):
         acc.violation("signonetime-generated-%d-keys" % len(generated), {}, case)
         return
     sk = generated[0]
-    want_files = sorted([pubp] + [os.path.abspath(im[0] + ".sig") for im in images])
-    new_files = sorted(tree(tmpdir) - before)
+    # (compared as the system resolves them: links followed, then "..")
+    want_files = sorted([os.path.realpath(pubp)] +
+                        [os.path.realpath(im[0] + ".sig") for im in images])
+    new_files = sorted(os.path.realpath(f_) for f_ in tree(tmpdir) - before)
     if written != want_files or sorted(set(new_files) | set()) != want_files:
         acc.violation("signonetime-wrote-other-files",
                       {"opened_for_writing": written, "new": new_files, "want": want_files},
